@@ -125,6 +125,11 @@ func (tb *TB) Of(v ssa.Value, env *Env) *Term {
 				return t
 			}
 		}
+		if fn := x.Parent(); fn != nil && fn.Signature.Recv() != nil && len(fn.Params) > 0 && fn.Params[0] == x {
+			if n := NamedOf(x.Type()); n != nil {
+				return leaf("recv:"+n.Obj().Name(), v)
+			}
+		}
 		return leaf("param:"+tb.FuncKey(x.Parent())+"#"+x.Name(), v)
 	case *ssa.FreeVar:
 		if b := FreeVarBinding(x); b != nil {
